@@ -98,6 +98,10 @@ LAYOUTS = {
                     opts=[("actor_optimizer", ["actor"], "lr_actor"), ("critic_optimizer", ["critic"], "lr_critic")]),
     "shared-opt": dict(hps={"lr": "float"}, opts=[("optimizer", ["actor", "critic"], "lr")]),
     "no-hp": dict(hps={}, opts=[("optimizer", ["actor"], "lr")]),
+    # TD3 / MATD3 / IPPO: several optimizers registered under ONE learning-rate name
+    "twin-critics": dict(hps={"lr_actor": "float", "lr_critic": "float"},
+                         opts=[("actor_optimizer", ["actor"], "lr_actor"), ("critic_1_optimizer", ["critic_1"], "lr_critic"),
+                               ("critic_2_optimizer", ["critic_2"], "lr_critic")]),
 }
 
 
